@@ -137,6 +137,40 @@ def readerI (bufferNow : Bool) (nowChunks : List Bytes) : List ReaderStep → Re
 
 def refReader : List ReaderStep := [.defaultType, .ifBufferNow .listOfReaderCall, .returnContent]
 
+/-! ### `content_from_stream` / `content_from_file` -/
+/-- what a call of the reader handed to `content_from_reader` does -/
+inductive ReaderDef
+  | freshIterChunks            -- `return _iter_chunks(stream, chunk_size, seek_offset, seek_whence)`: a NEW generator per call
+  | openThenFreshIterChunks    -- `with open(path, "rb") as stream: yield from _iter_chunks(stream, …)`: opened and read anew per call
+  | unknown
+deriving DecidableEq, Repr
+inductive MakeStep
+  | defaultType                    -- `if content_type is None: content_type = UTF8_TEXT`
+  | defReader (d : ReaderDef)      -- the nested `def reader():`
+  | returnFromReader               -- `return content_from_reader(reader, content_type, buffer_now)`
+  | unknown
+deriving DecidableEq, Repr
+
+/-- the reader the steps define and hand on (`none`: not interpreted); the content-type default does not touch it -/
+def makeI : List MakeStep → Option ReaderDef → Option ReaderDef
+  | [], _ => none
+  | .defaultType :: rest, r => makeI rest r
+  | .defReader .unknown :: _, _ => none
+  | .defReader d :: rest, none => makeI rest (some d)
+  | .defReader _ :: _, some _ => none
+  | .returnFromReader :: _, r => r
+  | .unknown :: _, _ => none
+
+/-- one evaluation of such a reader, run to exhaustion, on the model's stream: the model's `readAll` (seek again, read to the
+end; a file opened afresh) - the reader of a stream content on a stream, that of a file content on a file -/
+def evalReaderI (i : StreamIn) (s : Stream) (consumer : Bool) : ReaderDef → Option (List Ev × Option (List Bytes) × Stream)
+  | .freshIterChunks => if i.isFile then none else some (readAll i s consumer)
+  | .openThenFreshIterChunks => if i.isFile then some (readAll i s consumer) else none
+  | .unknown => none
+
+def refFromStream : List MakeStep := [.defaultType, .defReader .freshIterChunks, .returnFromReader]
+def refFromFile : List MakeStep := [.defaultType, .defReader .openThenFreshIterChunks, .returnFromReader]
+
 /-! ### `_iter_chunks` -/
 inductive CStep | seekIfGiven | read | whileChunk | yieldChunk | whileTrue | breakIfEmpty | unknown
 deriving DecidableEq, Repr
